@@ -488,6 +488,61 @@ fn pair_strategy() -> BoxedStrategy<Pair> {
     (0u8..11, word.clone(), word).prop_map(|(circuit, a, b)| Pair { circuit, a, b }).boxed()
 }
 
+// ---------------------------------------------------------------------------
+// (e) the library's own evaluator and entry points against the table semantics
+// ---------------------------------------------------------------------------
+
+#[derive(Clone, Debug, Serialize, Deserialize)]
+pub struct Hom {
+    pub be: pzv_be::Be,
+    pub circuit: u8,
+    pub a: u32,
+    pub b: u32,
+    /// 0 / 1: single-thread entry point; otherwise the *_multi_thread entry point with this many threads
+    pub threads: u8,
+    pub seed: u64,
+}
+
+pub fn hom_test(h: &Hom) -> Verdict {
+    let name = NAMES[h.circuit as usize % NAMES.len()];
+    let c = circuit(name);
+    // the clear model of this file: a in input bits [0, 32), b in [32, 64), level-by-level selection
+    let want = match eval_word(c, (h.a as u64) | ((h.b as u64) << 32)) {
+        Ok(v) => v,
+        Err(e) => return Verdict::fail(format!("{name}|structure"), format!("{name}({:#010x}, {:#010x}): {e}", h.a, h.b)),
+    };
+    let got = crate::c15::hom_word(h.be, name, h.a, h.b, h.threads as usize, h.seed);
+    if got != want {
+        return Verdict::fail(
+            format!("{name}|library-evaluator-differs-from-table-semantics"),
+            format!(
+                "backend={} {name}({:#010x}, {:#010x}) through the {} entry point decrypts to {got:#010x}; the compiled table evaluated level by level with a in bits [0,32) and b in bits [32,64) gives {want:#010x} (differing bits {:#010x})\ncase={h:?}",
+                h.be.name(),
+                h.a,
+                h.b,
+                if h.threads > 1 { format!("{}-thread", h.threads) } else { "single-thread".to_string() },
+                got ^ want
+            ),
+        );
+    }
+    Verdict::Pass(PassInfo {
+        nontrivial: h.a != h.b && (h.a != 0 || h.b != 0),
+        classes: vec![name.to_string(), h.be.name().to_string(), if h.threads > 1 { "multi_thread_entry_point".into() } else { "single_thread_entry_point".into() }],
+        weight: 1,
+    })
+}
+
+fn hom_strategy() -> BoxedStrategy<Hom> {
+    let word = prop_oneof![
+        4 => any::<u32>(),
+        1 => prop_oneof![Just(1u32), Just(0x8000_0000), Just(0xFFFF_FFFF), Just(0x7FFF_FFFF), Just(0xAAAA_AAAA)],
+        1 => 0u32..64,
+    ];
+    (0usize..2, 0u8..11, word.clone(), word, prop_oneof![Just(2u8), Just(3u8), Just(5u8), Just(11u8)], any::<u64>())
+        .prop_map(|(bi, circuit, a, b, threads, seed)| Hom { be: [pzv_be::Be::FftAvx, pzv_be::Be::FftRef][bi], circuit, a, b, threads: if seed & 1 == 0 { 1 } else { threads.max(2) }, seed })
+        .boxed()
+}
+
 pub fn run(ctx: &Ctx) {
     let t = ctx.tier;
     let circuits = u32_circuits();
@@ -534,6 +589,7 @@ pub fn run(ctx: &Ctx) {
     }
     ctx.run_enum("exhaustive_subcubes", false, cubes, cube_test);
     ctx.run_sub("random_and_boundary_pairs", t.pick(2_000_000, 40_000_000), 64, pair_strategy, pair_test);
+    ctx.run_sub("library_evaluator_vs_table_semantics", t.pick(256, 3_200), 16, hom_strategy, hom_test);
 }
 
 pub fn replay(ctx: &Ctx, sub: &str, case: &serde_json::Value) -> i32 {
@@ -541,13 +597,14 @@ pub fn replay(ctx: &Ctx, sub: &str, case: &serde_json::Value) -> i32 {
         "structural_validity_all_tables" => ctx.replay_case::<BitRef, _>(sub, case, structure_test),
         "directed_edge_coverage" => ctx.replay_case::<BitRef, _>(sub, case, directed_test),
         "exhaustive_subcubes" => ctx.replay_case::<Cube, _>(sub, case, cube_test),
+        "library_evaluator_vs_table_semantics" => ctx.replay_case::<Hom, _>(sub, case, hom_test),
         _ => ctx.replay_case::<Pair, _>(sub, case, pair_test),
     }
 }
 
-pub const RULE: &str = "tables of the 11 compiled u32 circuits (290 bit-circuits) read through hook H1; clear evaluator mirroring eval_level; oracle = Rust u32 semantics (shifts use b & 31, sra arithmetic, slt signed, sltu unsigned, wrapping add/sub). (a) exhaustive structural validity of every table (node count multiple of the state width, indices and selectors in range, no read of a slot the previous level left undefined, last level = [Cmux, None...]); (b) directed inputs: for every node reachable from the root a partial assignment routing the evaluation through it, both selector values, 6 completions (edge coverage measured, 100 % expected); (c) exhaustive sub-cubes: all 2^16 low-byte pairs under 8 (quick) / 64 (thorough) high patterns, all 64 shift amounts, all carry-chain lengths, sign boundaries; (d) random and boundary pairs. evaluations count bit-circuit evaluations. non-trivial = inputs not both zero / table with more than one level.";
+pub const RULE: &str = "tables of the 11 compiled u32 circuits (290 bit-circuits) read through hook H1; clear evaluator mirroring eval_level; oracle = Rust u32 semantics (shifts use b & 31, sra arithmetic, slt signed, sltu unsigned, wrapping add/sub). (a) exhaustive structural validity of every table (node count multiple of the state width, indices and selectors in range, no read of a slot the previous level left undefined, last level = [Cmux, None...]); (b) directed inputs: for every node reachable from the root a partial assignment routing the evaluation through it, both selector values, 6 completions (edge coverage measured, 100 % expected); (c) exhaustive sub-cubes: all 2^16 low-byte pairs under 8 (quick) / 64 (thorough) high patterns, all 64 shift amounts, all carry-chain lengths, sign boundaries; (d) random and boundary pairs; (e) the library itself: each word operation through its public single-thread and *_multi_thread entry points (2/3/5/11 threads; the harness scratch of 16 MiB holds 11 per-thread slices) on freshly encrypted prepared operands (shipped test context, FFT64Avx and FFT64Ref), decrypted and compared with the table evaluated by the clear evaluator with a in input bits [0,32) and b in [32,64). evaluations count bit-circuit evaluations. non-trivial = inputs not both zero / table with more than one level.";
 
 pub const ASSUMPTIONS: &[&str] = &[
     "generated search cannot enumerate all 2^64 input pairs per circuit: a function error confined to inputs that share every table edge with correctly handled sampled completions would escape (each path fixes the relevant bits, which makes this unlikely, not impossible)",
-    "the clear evaluator is the harness' own re-implementation of eval_level; its agreement with the homomorphic evaluator is checked by C15",
+    "the clear evaluator is the harness' own re-implementation of eval_level; its agreement with the library's evaluator and entry points is sampled by sub-check (e) (and, against the u32 semantics, by C15)",
 ];
